@@ -472,7 +472,7 @@ def alts_deep(e, limit=32):
     while todo and len(out) + len(todo) <= limit * 4:
         x = todo.pop()
         phi = None
-        for c in ast.walk(x):
+        for c in _preorder(x):          # same order as _replace_first_phi (NodeTransformer: pre-order, field order)
             if isinstance(c, ast.Call) and call_name(c) == "__phi__":
                 phi = c
                 break
@@ -488,6 +488,12 @@ def alts_deep(e, limit=32):
             seen.add(k)
             uniq.append(a)
     return uniq
+
+
+def _preorder(n):
+    yield n
+    for c in ast.iter_child_nodes(n):
+        yield from _preorder(c)
 
 
 def _replace_first_phi(x, repl):
